@@ -715,6 +715,18 @@ def load_func_for_dataclass(
                                     _globals['UnknownKeysError'] = UnknownKeysError
                                     fn_gen.add_line("raise UnknownKeysError(json_key, o, cls, cls_fields) from None")
 
+                    if meta.raise_on_unknown_json_key:
+                        # The key may have been cached as "ignored" by a function
+                        # generated for this class under another policy (the class
+                        # loaded on its own, or through another main class).
+                        known_keys = {path[0] for path in field_to_path.values()}
+                        if has_tag_assigned:
+                            known_keys.add(meta.tag_key)
+                        _locals['known_keys'] = frozenset(known_keys)
+                        _globals['UnknownKeysError'] = UnknownKeysError
+                        with fn_gen.if_('field is ExplicitNull and json_key not in known_keys'):
+                            fn_gen.add_line("raise UnknownKeysError(json_key, o, cls, cls_fields) from None")
+
                     # Exclude JSON keys that don't map to any fields.
                     with fn_gen.if_('field is not ExplicitNull'):
 
